@@ -185,9 +185,54 @@ void probeHazards(Unit* reporter)
          reporter->bad = false;
       }
    }
+   {
+      std::string err;
+      int r = forkProbe([]()
+      {
+         // dim 3, index memory of 3 entries; A[0] fills all 3 positions, the element of A[1] is then written to idx[3]
+         SVSetBase<double> A(8, 8);
+         DSVectorBase<double> c0, c1, e;
+         c0.add(0, 1.0);
+         c0.add(1, 2.0);
+         c0.add(2, 3.0);
+         c1.add(1, 1.0);
+         A.add(c0);
+         A.add(c1);
+         for(int i = 0; i < 6; i++) A.add(e);
+         auto tol = std::make_shared<Tolerances>();
+         SSVectorBase<double> x(8, tol), y(3, tol);
+         x.setValue(0, 1.0);
+         x.setValue(1, 1.0);
+         int ns = 0, nf = 0;
+         y.assign2product4setup(A, x, nullptr, nullptr, ns, nf);
+         return y[0] == 1.0 && y[1] == 3.0 && y[2] == 3.0;
+      }, 30, &err);
+      H.a2pShortOverflow = (r != 0);
+      S.count(std::string("probe.a2pShortOverflow.") + (r == 0 ? "ok" : r == 1 ? "wrong" : r == 2 ? "crash" : "hang"));
+      if(r != 0 && reporter)
+      {
+         std::string kind = "crash";
+         size_t p = err.find("AddressSanitizer: ");
+         if(p != std::string::npos)
+         {
+            kind = err.substr(p + 18, 40);
+            kind = kind.substr(0, kind.find_first_of(" \n"));
+         }
+         else if(r == 1) kind = "wrong-result";
+         std::string savedName = reporter->name;
+         reporter->name = "Vec.double";
+         reporter->fail("SSVector.assign2product4setup", "probe:" + kind,
+                        "SSVectorBase<double>(3) := A * x through assign2productShort with a result that fills all 3 positions after the first column: "
+                        "forked probe ended with " + kind + " (idx[nonzero_idx] is written before the position is known to be new); " + err.substr(0, 500));
+         reporter->name = savedName;
+         reporter->bad = false;
+      }
+   }
 #else
    H.classSetShrink = true;     // cannot be decided without AddressSanitizer: the shrinking variants are left to the asan stage
+   H.a2pShortOverflow = true;
    S.count("probe.classSetShrink.assumed");
+   S.count("probe.a2pShortOverflow.assumed");
 #endif
    S.count(std::string("hazard.svecRemoveTail.") + (H.svecRemoveTail ? "present" : "absent"));
    S.count(std::string("hazard.idxRemoveTail.") + (H.idxRemoveTail ? "present" : "absent"));
